@@ -244,6 +244,7 @@ static struct simk_child_script next_script;
 static int have_next_script;
 static int kill_after_reap;
 static int real_fork_next_t[SIMK_MAXT];
+static int pid_is_held(pid_t pid);
 static void proc_events(void);
 static int64_t proc_next_time(void);
 static void raise_process_sig(int sig);
@@ -1948,7 +1949,7 @@ pid_t simk_wait4(pid_t pid, int *status, int options, struct rusage *ru)
 			int st;
 			while (waitpid(p->pid, &st, 0) < 0 && errno == EINTR)
 				;
-		} else if (nfree_pids < NPROC)
+		} else if (nfree_pids < NPROC && !pid_is_held(p->pid))
 			free_pids[nfree_pids++] = p->pid;
 	} else if (p->report_stop) {
 		*status = 0x7f | (SIGSTOP << 8);
@@ -1968,12 +1969,60 @@ pid_t simk_waitpid(pid_t pid, int *status, int options)
 	return simk_wait4(pid, status, options, NULL);
 }
 
+int simk_kill(pid_t pid, int sig);
+/* pids the harness wants kept out of circulation (a plain wait interest refers to them) */
+static pid_t held_pids[NPROC];
+static int nheld;
+void simk_pid_hold(pid_t pid, int on)
+{
+	int i;
+	if (on) {
+		if (nheld < NPROC)
+			held_pids[nheld++] = pid;
+		/* also withdraw it if it is already waiting for reuse */
+		for (i = 0; i < nfree_pids; i++)
+			if (free_pids[i] == pid) {
+				free_pids[i] = free_pids[--nfree_pids];
+				break;
+			}
+		return;
+	}
+	for (i = 0; i < nheld; i++)
+		if (held_pids[i] == pid) {
+			held_pids[i] = held_pids[--nheld];
+			break;
+		}
+}
+static int pid_is_held(pid_t pid)
+{
+	int i;
+	for (i = 0; i < nheld; i++)
+		if (held_pids[i] == pid)
+			return 1;
+	return 0;
+}
+static int env_kill;	/* the environment (not the library) is signalling a child */
+
+/* harness: the application or an outsider signals a child directly */
+int simk_env_kill(pid_t pid, int sig)
+{
+	struct sproc *p = proc_find(pid);
+	int r;
+	if (p == NULL || p->state == 4)
+		return -1;
+	env_kill = 1;
+	r = simk_kill(pid, sig);
+	env_kill = 0;
+	return r;
+}
+
 int simk_kill(pid_t pid, int sig)
 {
 	struct sproc *p;
 	int r = 0;
 
-	simk_yield();
+	if (!env_kill)
+		simk_yield();
 	if (pid == getpid()) {
 		raise_process_sig(sig);
 		return 0;
@@ -2042,7 +2091,7 @@ int simk_kill(pid_t pid, int sig)
 			}
 		}
 	}
-	if (simk_obs.kill)
+	if (simk_obs.kill && !env_kill)
 		simk_obs.kill(me, pid, sig, r);
 	return r;
 }
@@ -2096,6 +2145,7 @@ void simk_run_begin(const struct simk_cfg *c)
 	rr_left = cfg.rr_quantum;
 	steps_since_advance = 0;
 	memset(real_fork_next_t, 0, sizeof(real_fork_next_t));
+	nheld = 0;
 	pct_nchange = cfg.pct_depth > 8 ? 8 : cfg.pct_depth;
 	for (i = 0; i < pct_nchange; i++)
 		pct_change[i] = 1 + (long)(mixhash(cfg.sched_seed, 99, (uint64_t)i) % 600);
